@@ -190,6 +190,53 @@ end Expr
 
 open Expr
 
+/-! ### memory expressions -/
+
+theorem memGetitem_spec (x : Expr) (sta sto : Nat) (r : Expr) (hx : WF x) (h1 : sta < sto) (h2 : sto ≤ x.size)
+    (h : memGetitem x sta sto = .ok r) : WF r ∧ r.size = sto - sta := by
+  unfold memGetitem at h
+  split at h
+  · rename_i n bs bf d ps pf size sf be mods
+    simp only [WF, WFOpt] at hx
+    obtain ⟨⟨hps, hbs, _, hpb⟩, hsz, hm⟩ := hx
+    simp only [Expr.size] at h2
+    have hy : WF (Expr.mem (.ptr (.reg n bs false) none
+        (d + (if be = true then ((size / 8 : Nat) : Int) - (((sto + 7) / 8 : Nat) : Int) else ((sta / 8 : Nat) : Int))) ps false)
+        (((sto + 7) / 8 - sta / 8) * 8) sf be mods) := by
+      simp only [WF, WFOpt]
+      refine ⟨⟨hps, hbs, trivial, by simpa using hpb⟩, by omega, hm⟩
+    by_cases hr : (decide (sta % 8 > 0) || decide (sto % 8 > 0)) = true
+    · rw [if_pos hr] at h
+      cases h
+      refine ⟨?_, rfl⟩
+      simp only [WF]
+      exact ⟨hy, by omega, by simp only [Expr.size]; omega⟩
+    · rw [if_neg hr] at h
+      simp only [Bool.or_eq_true, decide_eq_true_eq, not_or, Nat.not_lt, Nat.le_zero_eq] at hr
+      cases h
+      exact ⟨hy, by simp only [Expr.size]; omega⟩
+  · cases h
+
+theorem memSimplify_spec (x r : Expr) (hx : WF x) (h : memSimplify x = .ok r) : WF r ∧ r.size = x.size := by
+  unfold memSimplify at h
+  split at h
+  · cases h
+    simp only [WF, WFOpt] at hx ⊢
+    exact ⟨⟨⟨hx.1.1, hx.1.2.1, trivial, by simpa using hx.1.2.2.2⟩, hx.2.1, hx.2.2⟩, rfl⟩
+  · cases h
+
+theorem slcMem_spec (x : Expr) (pos size : Nat) (sf : Bool) (ref : Option String) (ety : Nat) (r : Expr) (hx : WF x)
+    (hs : 0 < size) (hp : pos + size ≤ x.size) (h : slcMem x pos size sf ref ety = .ok r) : WF r ∧ r.size = size := by
+  unfold slcMem at h
+  split at h
+  · split at h
+    · cases h
+      simp only [WF, WFOpt] at hx ⊢
+      exact ⟨⟨⟨hx.1.1, hx.1.2.1, trivial, by simpa using hx.1.2.2.2⟩, hs, trivial⟩, rfl⟩
+    · cases h
+      exact ⟨by simp only [WF]; exact ⟨hx, hs, hp⟩, rfl⟩
+  · cases h
+
 /-- the induction hypothesis: every function of the mutual block, at a given fuel, returns well-formed
     results of the dictated width. -/
 structure WidthIH (cfg : Cfg) (fuel : Nat) : Prop where
@@ -701,7 +748,10 @@ theorem getitem_step (x : Expr) (a b : Int) (hx : WF x) : Post (b - a).toNat (ge
       simp only [Bool.and_eq_true, beq_iff_eq] at h
       exact Post_pure (by simp only [WF]; exact hx) (by simp only [size_slc]; omega)
     · exact ih.slicer x' _ _ hx.1 hpos (by omega)
-  · exact Post_error _ _
+  · -- mem
+    intro r hr
+    have := memGetitem_spec _ _ _ r hx (by omega) (by omega) hr
+    exact this
   · -- vec
     rename_i l s f
     simp only [WF] at hx
@@ -1540,7 +1590,8 @@ theorem simplify_step (o : Opts) (e : Expr) (he : WF e) : Post e.size (simplify 
   · exact Post_ok he rfl
   · exact Post_ok he rfl
   · exact Post_ok he rfl
-  · exact Post_error _ _
+  · intro r hr
+    exact memSimplify_spec _ r he hr
   · exact Post_error _ _
   · -- slc
     rename_i x pos size sf ref ety
@@ -1561,7 +1612,8 @@ theorem simplify_step (o : Opts) (e : Expr) (he : WF e) : Post e.size (simplify 
         have := hgi x' hxw res (by simpa using hres)
         exact Post_pure ((WF_setSf _ _).mpr this.1) (by rw [size_setSf]; exact this.2)
       · split
-        · exact Post_error _ _
+        · intro res hres
+          exact slcMem_spec x' pos size sf ref ety res hxw hsz (by omega) hres
         · cases x' with
           | op xo xl xr xs xf xp =>
             dsimp only
